@@ -154,3 +154,19 @@ let () =
            end) ops;
          String.trim (Buffer.contents out))
     | _ -> failwith "cur")
+
+(* ---- C06: size_bytes_checked on the current buffer (message view at offset 0, n = len) ---- *)
+let () =
+  register "sbc" (fun args ->
+      let m = the_msg () in
+      let cl = clevel_of (the_slevel ()) m.m_hdr_size in
+      let fuel = (match args with [f] -> nat_of_int (int_of_string f) | _ -> nat_of_int (List.length !cur_buf + 2)) in
+      match size_bytes_checked !cur_be !cur_buf fuel m cl with
+      | CkValid (sz, st) -> Printf.sprintf "valid %s steps=%s" (string_of_z sz) (string_of_z st)
+      | CkInvalid st -> Printf.sprintf "invalid steps=%s" (string_of_z st)
+      | CkOob (k, off, st) -> Printf.sprintf "oob %s kind=%s steps=%s" (string_of_z off) (string_of_z k) (string_of_z st)
+      | CkFuel -> "fuel");
+  register "fit" (fun _ ->
+      match described_fit !cur_be !cur_buf (the_msg ()) with
+      | Some s -> "fits " ^ string_of_z s
+      | None -> "nofit")
